@@ -97,7 +97,7 @@ func expandC09(_ *testing.T, seed uint64, tier string) []*core.Plan {
 		}
 		p.Items = append(p.Items, d)
 		clean := r.Chance(1, 3)
-		p.Items = append(p.Items, core.Item{K: "connect", A: b2i(clean), B: r.Pick(0, 30, 30, 5)})
+		p.Items = append(p.Items, core.Item{K: "connect", A: b2i(clean), B: r.Pick(0, 30, 30, 5), C: r.Pick(0, 0, 0, 1, 2)})
 		n := r.Range(1, 10)
 		for i := 0; i < n; i++ {
 			switch r.Weighted([]int{10, 3, 2, 4, 2, 1, 1, 1, 2, 1, 1}) {
@@ -297,6 +297,22 @@ func runC09(t *testing.T, p *core.Plan) *core.Result {
 						return
 					}
 					r.watch(&futRec{kind: "connect", clientN: n, dialN: w.dials, fut: f})
+					if it.C > 0 {
+						// the application publishes the moment the connect future
+						// completes (what client.Service does): the client is still
+						// busy retransmitting what the session holds
+						// (in a goroutine of its own: the actor stays free for other calls)
+						go func() {
+							if f.Wait(30*time.Second) == nil {
+								tag, q := 1000+n, it.C
+								pf, err := c.Publish("t/p", []byte(fmt.Sprintf("#%d#", tag)), packet.QOS(q), false)
+								if err == nil {
+									r.watch(&futRec{kind: fmt.Sprintf("pub%d", q), tag: tag, clientN: n, fut: pf})
+								}
+								res.Count("publishes_on_connect", 1)
+							}
+						}()
+					}
 				})
 			case "pub":
 				c, n, tag, q := r.cur, r.curN, it.D, it.A
